@@ -4,43 +4,37 @@ import MythVerif.Proofs.WsQueueTsoStepF8
 namespace MythVerif.WsqTso
 open MythVerif.Wsq
 
-set_option maxHeartbeats 4000000 in
 theorem f_O_shift_pt7 (s : St) (lo0 hi0 off0 : Int) (rest : List Sto) (e b) : Inv s → s.opc = .pt7 e b →
     s.bufO = .shift lo0 hi0 off0 :: rest → Inv (applySto { s with bufO := rest } (.shift lo0 hi0 off0)) := by
   intro h hpc hb
   obtain ⟨rfl, rfl, rfl, hres⟩ := shift_head s h lo0 hi0 off0 rest hb
   have hmw := mwin_shift s.A s.ptr s.lb s.lt s.sh h.len (fun k hk => h.mwin k hk (Or.inr hres))
   simp only [applySto]
-  cases h; simp only [hpc, ownerLocked, carry, resetting, ownerFlight] at *
+  tso_coreO h hpc [pt7]
   constructor
-  all_goals (try simp only [ownerLocked, carry, resetting, ownerFlight, upd_apply, applySto])
   case mwin => intro k hk _; exact hmw k hk
-  tso_rest
+  tso_goalsO h hpc
 
-set_option maxHeartbeats 4000000 in
 theorem f_O_shift_pt8 (s : St) (lo0 hi0 off0 : Int) (rest : List Sto) (e b) : Inv s → s.opc = .pt8 e b →
     s.bufO = .shift lo0 hi0 off0 :: rest → Inv (applySto { s with bufO := rest } (.shift lo0 hi0 off0)) := by
   intro h hpc hb
   obtain ⟨rfl, rfl, rfl, hres⟩ := shift_head s h lo0 hi0 off0 rest hb
   have hmw := mwin_shift s.A s.ptr s.lb s.lt s.sh h.len (fun k hk => h.mwin k hk (Or.inr hres))
   simp only [applySto]
-  cases h; simp only [hpc, ownerLocked, carry, resetting, ownerFlight] at *
+  tso_coreO h hpc [pt8]
   constructor
-  all_goals (try simp only [ownerLocked, carry, resetting, ownerFlight, upd_apply, applySto])
   case mwin => intro k hk _; exact hmw k hk
-  tso_rest
+  tso_goalsO h hpc
 
-set_option maxHeartbeats 4000000 in
 theorem f_O_shift_pt9 (s : St) (lo0 hi0 off0 : Int) (rest : List Sto) : Inv s → s.opc = .pt9 →
     s.bufO = .shift lo0 hi0 off0 :: rest → Inv (applySto { s with bufO := rest } (.shift lo0 hi0 off0)) := by
   intro h hpc hb
   obtain ⟨rfl, rfl, rfl, hres⟩ := shift_head s h lo0 hi0 off0 rest hb
   have hmw := mwin_shift s.A s.ptr s.lb s.lt s.sh h.len (fun k hk => h.mwin k hk (Or.inr hres))
   simp only [applySto]
-  cases h; simp only [hpc, ownerLocked, carry, resetting, ownerFlight] at *
+  tso_coreO h hpc [pt9]
   constructor
-  all_goals (try simp only [ownerLocked, carry, resetting, ownerFlight, upd_apply, applySto])
   case mwin => intro k hk _; exact hmw k hk
-  tso_rest
+  tso_goalsO h hpc
 
 end MythVerif.WsqTso
